@@ -193,6 +193,11 @@ def run(ctx):
     # ------------------------------------------------------------------ R10.11
     rule_errors_not_swallowed(ctx, mir)
 
+    # ------------------------------------------------------------------ R10.12 (= R11.2)
+    # what is buffered (and charged) after a chunk is exactly the unconsumed tail, never the whole chunk
+    from .c11 import rule_flush_operands
+    rule_flush_operands(ctx, mir, rid="R10.12")
+
     ctx.not_decided += ["monotonicity in M and equality of outputs across limits (relations between runs)", "that Vec::try_reserve_exact reserves exactly what was charged (allocator behaviour)"]
     return ("Accounting clauses: charge-dominates-grow on the two limited containers with operand identity, error discipline for every "
             "Result carrying MemoryLimitExceededError (23 sites), the comparison shape of the limiter, a type-driven inventory of every growable "
